@@ -73,8 +73,13 @@ RULE = ("Documents are rendered from abstract trees; the oracle is the tree that
         "after tags / after steps, second Feature, Examples inside a description, bad tag, And/But first, only tags, "
         "table open at the end, a '# language: de' text) or complete; the last call is a well-formed rendered text "
         "(table of the same width, another width, none, doc-string, both, tags, outline, rule, de header). Every call "
+        "(also Parser.parse_tags; histories both with parser.variant assigned before every call as execute_steps does "
+        "and as plain library calls that never touch it, the latter incl. every (x ; fragment call ; whole feature with "
+        "an en / de / fr '# language:' header)) "
         "must give the model (canonical form incl. lines) or the exception class + line that a FRESH Parser carrying "
         "the same language gives (for a whole feature text also: a fresh Parser without language). "
+        "(8b) the well-formed texts of (8) through objects of Parser subclasses (own constructor signature, counting "
+        "constructor, no override): rendered model, constructor run once. "
         "(9) Language-sequence histories (module / class level memos show only across documents): for EVERY ordered "
         "pair of languages that share a step keyword string (derived from the keyword table; thorough: also '* ', i.e. "
         "nearly all pairs), in one fresh process-state (a private, freshly executed copy of behave/parser.py, not in "
@@ -1256,9 +1261,12 @@ _AB = (
     ("parse_scenario", u"@t1\nScenario: S\n  Given g\n    | a | b |\n    | 1 |\n", "row-width-2"),
     ("parse_scenario", u"@t1 @t2\n", "only-tags"),
     ("parse_rule", u"Rule: R\n  Scenario: S\n    Given g\n      | a | b |\n      | 1 |\n", "row-width-2"),
+    ("parse_tags", u"@a @b", "tag-line"),
+    ("parse_tags", u"@a b", "bad-tag-line"),
 )
 _AB = tuple((m, t.replace(u"DQ", u'"' * 3).replace(u"SQ", u"'" * 3), l) for m, t, l in _AB)
-_METHOD_ENTRY = {"parse": "feature", "parse_steps": "steps", "parse_scenario": "scenario", "parse_rule": "rule"}
+_METHOD_ENTRY = {"parse": "feature", "parse_steps": "steps", "parse_scenario": "scenario", "parse_rule": "rule",
+                 "parse_tags": "tags"}
 _WF = []
 
 
@@ -1291,6 +1299,8 @@ def _wellformed_ops():
         ("rich", gr.decorate(RICH, seed=1)),
         ("outline-rule", lang_doc("en", {}, 0, header=False)),
         ("de", lang_doc("de", {}, 0)),
+        ("fr", lang_doc("fr", {}, 0)),
+        ("en-with-header", lang_doc("en", {}, 0)),
         ("de-tables", lang_doc("de", {}, 1)),
     ]
     for label, doc in feats:
@@ -1312,16 +1322,19 @@ def _reuse_ops():
     return [(m, t, "abort:" + l, None) for m, t, l in _AB] + [(m, r["text"], "ok:" + l, r) for m, r, l in _wellformed_ops()]
 
 
-def _reuse_call(parser, method, text):
-    parser.variant = _METHOD_ENTRY[method]      # as Context.execute_steps() does before parser.parse_steps()
+def _reuse_call(parser, method, text, set_variant=True):
+    if set_variant:
+        parser.variant = _METHOD_ENTRY[method]  # as Context.execute_steps() does before parser.parse_steps()
     try:
         res = getattr(parser, method)(text)
     except bp.ParserError as e:
-        return ("PE", e.line, ps.exc_site(e))
+        return ("PE", None if method == "parse_tags" else e.line, ps.exc_site(e))
     except Exception as e:
         return ("EXC", type(e).__name__, ps.exc_site(e))
     if res is None:
         return ("ok", None)
+    if method == "parse_tags":
+        return ("ok", {"kind": "tags", "names": [u"%s" % t for t in res]})   # per-line helper: no line of its own
     want = {"parse": bm.Feature, "parse_steps": list, "parse_scenario": bm.Scenario, "parse_rule": bm.Rule}[method]
     if not isinstance(res, want):
         return ("ok", {"kind": "a %s object" % type(res).__name__})
@@ -1340,6 +1353,12 @@ def check_reuse(seq):
     obs = []
     start = 0
     seq = list(seq)
+    # family "plain": the methods are called on the object exactly as a library user would, nobody assigns
+    # parser.variant (the other histories assign it before every call, the way Context.execute_steps() does)
+    plain = seq[0] == "plain"
+    if plain:
+        seq = seq[1:]
+        obs.append("plain")
     if seq[0] < 0:
         seq[0] = -seq[0] - 1
         feature = bp.parse_feature(ops[seq[0]][1])
@@ -1360,10 +1379,10 @@ def check_reuse(seq):
         # fragments: a fresh Parser carrying the same language.  A whole feature text: which language a re-used
         # Parser starts in (the one it was built with, or the one a '# language:' header of an earlier text left
         # behind) is outside the statement - both readings are accepted
-        wants = [_reuse_call(bp.Parser(language=carried), method, text)]
+        wants = [_reuse_call(bp.Parser(language=carried), method, text, not plain)]
         if method == "parse":
-            wants.insert(0, _reuse_call(bp.Parser(), method, text))
-        got = _reuse_call(used, method, text)
+            wants.insert(0, _reuse_call(bp.Parser(), method, text, not plain))
+        got = _reuse_call(used, method, text, not plain)
         obs.append((tuple(w[0] for w in wants), got[0], got in wants))
         if got in wants:
             continue
@@ -1371,6 +1390,8 @@ def check_reuse(seq):
         if rendered is not None and want[0] == "ok" and gr.diff(rendered["expected"], want[1]) and len(wants) == 1:
             continue        # the fresh parser itself is not faithful on this text: reported by the other sub-checks
         d = {"subcheck": "parser-reuse", "method": method}
+        if plain:
+            d["calls"] = "plain"
         if want[0] == "ok" and got[0] == "ok":
             tree = want[1] if not isinstance(want[1], list) else {"kind": "steps", "steps": want[1]}
             other = got[1] if not isinstance(want[1], list) else {"kind": "steps", "steps": got[1]}
@@ -1413,11 +1434,43 @@ def reuse_cases(thorough):
             for c in finals:
                 if ops[c][0] != "parse":
                     yield (-a - 1, b, c)
-    firsts = range(n) if thorough else aborts + finals[::3]
+    # plain library use (no variant assignment): every history of <= 2 calls, and (x ; fragment call ; whole
+    # feature) - incl. features whose '# language:' header differs from the language the object carries by then
+    frags = [i for i in range(n) if ops[i][0] != "parse"]
+    wholes = [i for i in finals if ops[i][0] == "parse"]
+    for a in range(n):
+        yield ("plain", a)
+        for b in range(n):
+            yield ("plain", a, b)
+    for a in (range(n) if thorough else wholes + frags[::2]):
+        for b in frags:
+            for c in wholes:
+                yield ("plain", a, b, c)
+    firsts = range(n) if thorough else aborts[::2] + finals[::4]
     for a in firsts:                        # (x ; abort-or-ok ; well-formed): incl. ok ; abort ; ok
         for b in range(n):
             for c in finals:
                 yield (a, b, c)
+
+
+# ================================================================ (8b) library use: Parser subclasses
+def check_subclass(case):
+    """(kind, index of a well-formed rendered text): parsed by calling the entry point method on an object of a
+    Parser subclass; the model must be the rendered one and the object's constructor must have run once"""
+    kind, k = case
+    method, r, label = _wellformed_ops()[k]
+    entry = _METHOD_ENTRY[method]
+    out, inits, res = ps.run_subclass(kind, entry, r["text"])
+    if out[0] == "ok":
+        got = ("ok", None if res is None else gr.x_feature(res) if entry == "feature" else [gr.x_step(x) for x in res]
+               if entry == "steps" else gr.x_scenario(res) if entry == "scenario" else gr.x_rule(res))
+    else:
+        got = ("exc", out[1] if out[0] == "EXC" else "ParserError", out[2], repr(out))
+    v = compare("model", entry, r, got, {"subclass": kind})
+    if inits is not None and inits != 1:
+        v.append(({"subcheck": "subclass", "clause": "constructor-called-again", "subclass": kind, "entry": "parse_" + entry},
+                  "__init__ of the %s object ran %d times for one %s()" % (kind, inits, method)))
+    return {"v": v, "nt": ("subclass", kind, k), "out": ("subclass", kind, method), "dg": (got, inits)}
 
 
 # ================================================================ (9) language-sequence histories
@@ -1612,8 +1665,10 @@ def run(ctx):
     ops = _reuse_ops()
     ctx.bounds["parser_reuse"] = ("%d operations (%d aborting/unfinished texts, %d well-formed rendered texts); all "
                                   "histories of <= 2 calls, all (x ; y ; well-formed) of 3 calls%s, on one Parser object"
-                                  % (len(ops), len(_AB), len(ops) - len(_AB), "" if thorough else " (x: all aborting + every 3rd well-formed)"))
+                                  % (len(ops), len(_AB), len(ops) - len(_AB), "" if thorough else " (x: every 2nd aborting + every 4th well-formed)"))
     ctx.sweep(check_reuse, reuse_cases(thorough), chunk=64, name="parser-reuse histories")
+    ctx.sweep(check_subclass, ((k, i) for k in ps.SUBCLASS_KINDS for i in range(len(_wellformed_ops()))), chunk=8,
+              name="well-formed texts through Parser subclasses")
     # (9)
     pairs = language_pairs(include_star=thorough)
     found = set((a, b, k) for a, b, k, ext in pairs if ext)
